@@ -172,27 +172,33 @@ def check(ctx):
             seen_rows.add(row[0])
             ctx.ob("R1", f"{BP}:{a}", f"case [{'; '.join(conds) or 'always'}]: wrapped by {sorted(row[1]) or 'no helper'} and delivered with `{row[2]}`", helpers == row[1] and mode == row[2], key=f"{a}|pair|{rows[row[0]][0]}", where=loc(fn), detail=f"found helpers={sorted(helpers)} mode={mode}")
         ctx.ob("R1", f"{BP}:{a}", "every documented case of the action exists", seen_rows == set(range(len(rows))), key=f"{a}|case-missing", detail=f"seen {sorted(seen_rows)} of {len(rows)}")
-    # assembler
-    sc = bp.func("BaseParser._subproc_cliargs")
+    # assembler: decided by path enumeration over the per-argument loop body of the helper-transparent view
+    # (an if/elif chain, early returns in a helper, != with swapped arms ... all give the same paths)
+    sc = flat(ctx, bp.func("BaseParser._subproc_cliargs"), depth=2, skip=("binop", "call_split_lines", "ensure_list_from_str_or_list", "empty_list"))
+    aloops = [l for l in walk_local(sc) if isinstance(l, ast.For) and any(isinstance(x, ast.Attribute) and x.attr == "_cliarg_action" for x in ast.walk(l))]
+    if len(aloops) != 1:
+        raise AnalysisError(f"{BP}:_subproc_cliargs: per-argument loop not found ({len(aloops)})")
     found = {}
-    for n in ast.walk(sc):
-        if isinstance(n, ast.If) and isinstance(n.test, ast.Compare) and isinstance(n.test.left, ast.Name) and isinstance(n.test.ops[0], (ast.Eq, ast.NotEq)) and isinstance(const_value(n.test.comparators[0]), str):
-            mode = const_value(n.test.comparators[0])
-            body = ast.Module(body=n.body if isinstance(n.test.ops[0], ast.Eq) else n.orelse, type_ignores=[])
-            names = {call_name(c) for c in calls_in(body, local=False)}
-            if "call_split_lines" in names:
-                found[mode] = "call_split_lines"
-            elif "ensure_list_from_str_or_list" in names:
-                found[mode] = "ensure_list_from_str_or_list"
-            elif any((nm_ or "").endswith(".elts.append") for nm_ in names):
-                found[mode] = "list-element"
-            elif "binop" in names:
-                found[mode] = "concat"
-            else:
-                found[mode] = "?"
+    unknown_raises = False
+    for pth in dtable.simplified(dtable.paths(aloops[0].body, stores=True, loops="skip")):
+        modes_pos = []
+        modes_neg = set()
+        for e, pol in pth.conds:
+            for e2, p2 in dtable.branches(e, pol)[0] if len(dtable.branches(e, pol)) == 1 else [dtable.normalise(e, pol)]:
+                if isinstance(e2, ast.Compare) and isinstance(e2.ops[0], ast.Eq) and isinstance(const_value(e2.comparators[0]), str) and "_cliarg_action" in unparse(e2.left):
+                    (modes_pos.append if p2 else modes_neg.add)(const_value(e2.comparators[0]))
+        text = " ".join(unparse(e) for e in pth.effects) + " " + " ".join(unparse(v) for k_, v in pth.env.items() if isinstance(v, ast.AST) and not k_.startswith("<"))
+        if pth.outcome == "raise":
+            if not modes_pos:
+                unknown_raises = True
+            continue
+        if len(modes_pos) != 1:
+            continue
+        kind = "call_split_lines" if "call_split_lines(" in text else "ensure_list_from_str_or_list" if "ensure_list_from_str_or_list(" in text else "list-element" if ".elts.append(" in text else "concat" if "binop(" in text else "?"
+        found.setdefault(modes_pos[0], set()).add(kind)
     for mode, want in ASSEMBLER.items():
-        ctx.ob("R1", f"{BP}:BaseParser._subproc_cliargs", f"mode `{mode}` is assembled as {want}", found.get(mode) == want, key=f"assembler|{mode}", detail=f"found {found.get(mode)}")
-    ok = any(isinstance(n, ast.Raise) for n in ast.walk(sc)) and set(found) == set(ASSEMBLER)
+        ctx.ob("R1", f"{BP}:BaseParser._subproc_cliargs", f"mode `{mode}` is assembled as {want}", found.get(mode) == {want}, key=f"assembler|{mode}", detail=f"found {sorted(found.get(mode, []))}")
+    ok = unknown_raises and set(found) == set(ASSEMBLER)
     ctx.ob("R1", f"{BP}:BaseParser._subproc_cliargs", "an unknown mode is an error, and no further mode exists", ok, key="assembler|modes", detail=str(sorted(found)))
     # macro tail: one constant built from the source slice
     ab = bp.func("BaseParser._append_subproc_bang")
@@ -267,8 +273,19 @@ def check(ctx):
     ctx.ob("R4", f"{SP}:SubprocSpec._run_binary", "a binary is started with self.cmd as argv", ok, key="_run_binary|argv")
     ra = ms["resolve_args_list"]
     # flattening only: every element is appended as is (lists are concatenated), no transformation of strings
-    ok = not any(isinstance(c.func, ast.Attribute) and c.func.attr not in ("append",) for c in calls_in(ra) if isinstance(c.func, ast.Attribute)) and all(call_name(c) in ("isinstance", "len") or (isinstance(c.func, ast.Attribute) and c.func.attr == "append" and isinstance(c.func.value, ast.Name)) for c in calls_in(ra))
-    ctx.ob("R4", f"{SP}:SubprocSpec.resolve_args_list", "weaving the argument lists only flattens (isinstance/len/append)", ok, key="resolve_args_list|shape")
+    def shape_only(nm_):
+        """a module helper that only looks at shapes (isinstance/len), e.g. an extracted predicate"""
+        if not (nm_ and sp.has(nm_) and isinstance(sp.quals[nm_], FuncTypes)):
+            return False
+        return all(call_name(c_) in ("isinstance", "len") for c_ in calls_in(sp.quals[nm_]))
+
+    ok = all(
+        call_name(c) in ("isinstance", "len")
+        or shape_only(call_name(c))
+        or (isinstance(c.func, ast.Attribute) and c.func.attr in ("append", "extend") and isinstance(c.func.value, ast.Name))
+        for c in calls_in(ra)
+    )
+    ctx.ob("R4", f"{SP}:SubprocSpec.resolve_args_list", "weaving the argument lists only flattens (isinstance/len/append/extend and shape predicates)", ok, key="resolve_args_list|shape")
 
     # ------------------------------------------------------------------ R5
     # the user's arguments cross alias resolution by copying only.  Tracked: `args = key[1:]` in
